@@ -26,7 +26,7 @@ RULE = (
     'golden/routing.json; a sample is also located physically (which shard directory received the row). (c) pairs of keys '
     'the cache treats as equal must route to one shard for every shard count. non-trivial: (a) >= 2 shards non-empty and '
     'an aggregate op; (d) reset()/reload/attribute reads through two handles per directory, differentially against two handles '
-    'on an unsharded Cache (step results and what every shard persists); non-trivial = a reset over a copy made stale by the other handle; (b)/(c) batches containing non-ASCII/out-of-int64/float keys or derived pairs; distinct by SHA-1'
+    'on an unsharded Cache and against the truth (last reset wins): step results, what every shard persists, key encoding across handles, eviction after a policy reload; non-trivial = a reset over a copy made stale by the other handle; (b)/(c) batches containing non-ASCII/out-of-int64/float keys or derived pairs; distinct by SHA-1'
 )
 ASSUMPTIONS = [
     'history alphabets never contain numeric twins (1 and 1.0): that is the recorded known finding, excluded by construction',
